@@ -2,9 +2,14 @@
 """selftest/archive_seeds.py <seed-root> <results-file> <round>  copies validated seeds into /verif/seeded/<id>-r<round>m<k>/"""
 import json,os,shutil,sys,re
 root,resf,rnd=sys.argv[1],sys.argv[2],sys.argv[3]
+before={}
+if len(sys.argv)>4:   # optional: the results file measured before the checks were extended
+    for l in open(sys.argv[4]):
+        m=re.match(r'(C\d+) (m\d+) .*caught_\w+=(\d)',l.strip())
+        if m: before[(m.group(1),m.group(2))]=m.group(3)=='1'
 res={}
 for l in open(resf):
-    m=re.match(r'(C\d+) (m\d+) clean=(\d) suite=(\d) demo_fails=(\d) caught_(\w+)=(\d) \| ?(.*)',l.strip())
+    m=re.match(r'(C\d+) (m\d+) clean=(\d) suite=(\d) demo_fails=(\d) caught_(\w+)=(\d)(?: exit=\d*)? \| ?(.*)',l.strip())
     if m: res[(m.group(1),m.group(2))]=m.groups()
 for (pid,mk),g in sorted(res.items()):
     src=os.path.join(root,pid,mk)
@@ -24,5 +29,7 @@ for (pid,mk),g in sorted(res.items()):
     meta['confirmed']={'by':'selftest/seedcheck.sh on a scratch copy of /repo (rsync, outside /repo and /verif, removed afterwards)',
         'clean_tree_demo':'pass','suite_with_patch':'all packages ok','demo_with_patch':'fails',
         'check':f'./check {pid} {g[5]}','caught':g[6]=='1','first_signature':g[7]}
+    if (pid,mk) in before:
+        meta['confirmed']['caught_before_the_checks_were_extended']=before[(pid,mk)]
     json.dump(meta,open(os.path.join(dst,'meta.json'),'w'),indent=1)
     print('archived',dst,'caught' if g[6]=='1' else 'MISSED')
